@@ -350,6 +350,9 @@ func judge(c *Case, cache bcache) verdict {
 			return v
 		}
 		if sig, d := compare(c, i, a, b); sig != "" {
+			if s2, _ := compare(c, i, normSnap(a), normSnap(b)); s2 == "" {
+				sig = "eval:value-differs:negative-zero-constant" // the only difference is -0.0 vs 0.0
+			}
 			v.Sig = sig
 			c.Diff = d
 			v.What = describe(c, i, a, b, d)
@@ -398,6 +401,48 @@ func judge(c *Case, cache bcache) verdict {
 		}
 	}
 	return v
+}
+
+// normZero rewrites the canonical dump of -0.0 ("f-0") to that of 0.0 ("f0").
+func normZero(s string) string {
+	if !strings.Contains(s, "f-0") {
+		return s
+	}
+	var sb strings.Builder
+	for i := 0; i < len(s); i++ {
+		if strings.HasPrefix(s[i:], "f-0") {
+			j := i + 3
+			if j >= len(s) || !(s[j] == '.' || s[j] == 'e' || (s[j] >= '0' && s[j] <= '9')) {
+				sb.WriteString("f0")
+				i += 2
+				continue
+			}
+		}
+		sb.WriteByte(s[i])
+	}
+	return sb.String()
+}
+
+func normSnap(s snap) snap {
+	nr := func(rs []result) []result {
+		out := make([]result, len(rs))
+		for i, r := range rs {
+			r.Val = normZero(r.Val)
+			out[i] = r
+		}
+		return out
+	}
+	nl := func(l []string) []string {
+		out := make([]string, len(l))
+		for i, x := range l {
+			out[i] = normZero(x)
+		}
+		return out
+	}
+	s.Results, s.Probes = nr(s.Results), nr(s.Probes)
+	s.Log, s.ProbeLog = nl(s.Log), nl(s.ProbeLog)
+	s.Globals, s.ProbeGlobals = normZero(s.Globals), normZero(s.ProbeGlobals)
+	return s
 }
 
 const excludeRefusal = "EXCLUDE:optimizer-refusal-timing(C01-liberty)"
@@ -1015,6 +1060,9 @@ func runFixed(t *testing.T, ck *checker) {
 		{Fragments: []string{"x := 1", "println(x)", "y := x / 0", "z := 3"}, NoOptimize: true},
 		{Fragments: []string{"x := 1", "y := nope", "z := 3"}},
 		{Fragments: []string{"x := 1", "delete({}, \"a\")", "3"}, Disabled: []string{"delete"}},
+		// constant pool carried over: a later 0.0 literal must not be served an earlier -0.0 constant
+		{Fragments: []string{"nz := -0.0", "pz := 0.0", "[pz, nz, 1.0 / pz]"}, Probes: [][]string{{"return [nz]"}, {"return [nz, pz]"}, {"return [nz, pz]"}},
+			RetForm: []string{"", "", "return [pz, nz, 1.0 / pz]"}},
 	}
 	for i := range fixed {
 		for _, o := range options {
